@@ -1031,7 +1031,7 @@ func (w *World) inlineText(h *Func, s *inlineSite, serial int, overlay map[strin
 		if boolGuard {
 			break
 		}
-		tmp := "v" + suffix
+		tmp := "hv" + suffix
 		lhs = []string{tmp}
 		preDecl = append(preDecl, "var "+tmp+" "+types.TypeString(sig.Results().At(0).Type(), qual))
 		after = render(csrc, ctf, cinfo, s.stmt, nil, map[ast.Node]string{s.call: tmp}) + "\n"
